@@ -10,7 +10,7 @@ CONSTANTS
     ServiceNames = {"", "S1"}
     ServerIds = {"", "I1"}
     Versions = {"", "1.2.3"}
-    MaxRegs = 2
+    MaxRegs = 1
     ApiHash = TRUE
     Mode = "mc"
     Depth = 0
